@@ -91,13 +91,24 @@ Section Rel.
     - apply N.eqb_neq in E. destruct (H y) as [H1 H2]. split; [|exact H2]. intros Hy. apply H1. apply S; assumption.
   Qed.
 
-  Lemma eval_rel : forall L s1 s2 e, rel L s1 s2 -> (forall x, In x (vars_e e) -> In x L) -> eval s1 e = eval s2 e.
+  Lemma eval_rel_gen : forall e L s1 s2, rel L s1 s2 -> (forall x, In x (vars_e e) -> In x L) -> eval s1 e = eval s2 e.
   Proof.
-    intros L s1 s2 e H. induction e as [x|z|o a IHa b IHb]; intros S; simpl.
+    induction e as [x|z|o a IHa b IHb|v k IHk body IHbody]; intros L s1 s2 H S; simpl.
     - apply (H x). apply S. simpl. auto.
     - reflexivity.
-    - rewrite IHa, IHb; [reflexivity | |]; intros x Hx; apply S; simpl; apply in_or_app; auto.
+    - rewrite (IHa L s1 s2 H), (IHb L s1 s2 H); [reflexivity | |]; intros x Hx; apply S; simpl; apply in_or_app; auto.
+    - rewrite (IHk L s1 s2 H) by (intros x Hx; apply S; simpl; apply in_or_app; auto).
+      destruct (eval s2 k) as [n|]; [|reflexivity].
+      generalize 0%Z at 1 3. generalize 0%Z.
+      induction (Z.to_nat n) as [|m IHm]; intros acc i; [reflexivity|].
+      assert (E : eval (upd s1 v i) body = eval (upd s2 v i) body).
+      { apply (IHbody (vars_e body)); [|auto].
+        eapply rel_upd; [exact H|]. intros y Hy Hne. apply S. simpl. apply in_or_app. right. apply In_remove. auto. }
+      rewrite E. destruct (eval (upd s2 v i) body); [apply IHm | reflexivity].
   Qed.
+
+  Lemma eval_rel : forall L s1 s2 e, rel L s1 s2 -> (forall x, In x (vars_e e) -> In x L) -> eval s1 e = eval s2 e.
+  Proof. intros. eapply eval_rel_gen; eauto. Qed.
 
   Definition loop_live (loop : loopk -> store -> list Z -> res) : Prop :=
     (forall c b e k s1 s2 o, nocall b = true -> nocall e = true -> conv_while c b e k = true ->
